@@ -270,6 +270,8 @@ func (s *Space) variants() []Variant {
 		vs = append(vs,
 			Variant{Name: "withhold-" + n, Thr: defaultThreshold, Withhold: x, Filter: -1, When: whenInterior},
 			Variant{Name: "withhold-" + n + "+ignore-missing", Thr: defaultThreshold, Withhold: x, Filter: -1, IgnMiss: true, When: whenInterior},
+			// the other ignore option does not cover a missing history
+			Variant{Name: "withhold-" + n + "+ignore-inconsistency", Thr: defaultThreshold, Withhold: x, Filter: -1, IgnInc: true, When: whenInterior},
 			Variant{Name: "filter-" + n, Thr: defaultThreshold, Withhold: -1, Filter: x, When: whenInterior},
 		)
 	}
